@@ -199,6 +199,51 @@ def _poly_at(entry: Dict[str, object], x: A.RF) -> Optional[A.RF]:
     return a * x * x + b * x + c
 
 
+def _curve_by_family(prog: Program, rep, rule: str, cc, sel) -> None:
+    """calculate_curve in a shape other than head entry + one loop + tail: evaluated as a whole (engine D, loops over the
+    known table unrolled) on tables of 3, 4, 5 and 6 nodes with symbolic Mach numbers and drag values.  Entry 0 must be
+    the line through nodes 0 and 1, entry i (1 <= i <= n-2) the parabola through nodes i-1, i, i+1, one entry per node
+    index the selector can return (0 .. n-2, R4).  Decided on the family only - said so in the evidence."""
+    tc = prog.module(C.M_TC)
+    ddp = prog.cls(C.M_DM, 'DragDataPoint')
+    problems = []
+    n_entries = 0
+    for n in (3, 4, 5, 6):
+        ev = Evaluator(prog)
+        ev.unroll = True
+        st = State()
+        table = ev.new_list(st, [ev.new_inst(st, ddp, {'Mach': S(f'm{k}'), 'CD': S(f'y{k}')}) for k in range(n)])
+        try:
+            r, st = ev.call_value(cc, [table], st=st)
+        except Undecided as exc:
+            raise AnalysisError(f'calculate_curve: neither head + one loop + tail nor readable as a whole ({exc})') from exc
+        alts = [x for _cp, x in cond_leaves(r)]
+        its = ev.items(st, alts[0]) if len(alts) == 1 else None
+        if its is None or not all(isinstance(i_, Inst) for i_ in its):
+            raise AnalysisError(f'calculate_curve on {n} nodes evaluates to {r!r}'[:200])
+        if len(its) < n - 1:
+            problems.append(f'a table of {n} nodes gives {len(its)} entries: the selector can return index {n - 2}')
+            continue
+        for i in range(0, n - 1):
+            ent = st.heap[its[i].oid]
+            nodes = (0, 1) if i == 0 else (i - 1, i, i + 1)
+            for k in nodes:
+                v = _poly_at(ent, A.sym(f'm{k}'))
+                if v is None or not v.equals(A.sym(f'y{k}')):
+                    problems.append(f'table of {n} nodes: entry {i} does not pass through node {k} (value there {v!r}'[:200] + ')')
+                    break
+            else:
+                n_entries += 1
+    if problems:
+        rep.fail(rule, tc.path, cc.node.lineno, cc.qualname, 'curve-entries', '; '.join(problems[:2]))
+    else:
+        rep.ok(rule, cc.where, f'entry 0 is the line through nodes 0 and 1, entry i the parabola through nodes i-1, i, i+1: {n_entries} '
+               f'entries of tables with 3 .. 6 symbolic nodes (construction read as a whole)')
+        rep.undecided(rule, cc.where, 'curve entries for every table length', 'calculate_curve is not head entry + one loop + tail; '
+                      'decided on the finite family only')
+    rep.rules[rule].min_instances = min(rep.rules[rule].min_instances, 2)
+
+
 def check_curve(prog: Program, rep, rule: str) -> None:
     tc = prog.module(C.M_TC)
     cc = prog.func(C.M_TC, 'calculate_curve')
@@ -206,10 +251,8 @@ def check_curve(prog: Program, rep, rule: str) -> None:
     rep.saw(cc)
     rep.saw(sel)
     loops = [s for s in cc.node.body if isinstance(s, ast.For)]
-    if len(loops) != 1:
-        raise AnalysisError('calculate_curve: expected exactly one top-level for loop')
-    loop = loops[0]
-    k = cc.node.body.index(loop)
+    loop = loops[0] if len(loops) == 1 else None
+    k = cc.node.body.index(loop) if loop is not None else 0
     pre, post = cc.node.body[:k], cc.node.body[k + 1:]
     dp_name = cc.positional[0]
     ev = Evaluator(prog)
@@ -285,6 +328,10 @@ def check_curve(prog: Program, rep, rule: str) -> None:
         rep.ok(rule, sel.where, f'selector returns c + b*m + a*m^2 of one entry ({nleaf} cases); index range '
                f'[{lo!r}, {hi!r}]')
 
+    if loop is None:
+        # another shape of the construction: read as a whole on tables of 3 .. 6 symbolic nodes (finite family)
+        _curve_by_family(prog, rep, rule, cc, sel)
+        return
     # head entry
     st = State({dp_name: SymObj('dp')})
     try:
